@@ -16,7 +16,7 @@ void run(const std::string & tn)
   using R = Ref<G>;
   constexpr int D = R::Dof;
   const double T  = 1e-5;  // stated, relative to the largest entry of the exact Hessian
-  auto Ts = tangents<R, double>(AlphaOpts::full().upto(PI - 1e-3));
+  auto Ts = tangents<R, double>(AlphaOpts::dense().upto(PI - 1e-3));
   mc::explore("C05/exp-hess/" + tn, Ts.size(), [&](mc::Case & c) {
     const auto & t = Ts[c.idx];
     const auto a   = make<G>(t);
